@@ -38,7 +38,56 @@ add('C20',
     'Lean 4 proof (K-buffer invariant by induction over rows, sorted-permutation uniqueness, CTE unrolling) + differential correspondence + reference one-liner oracle on SQLite',
     'DESIGN.md section 5 C20')
 
-ALL = ['C%02d' % i for i in range(1, 21)]
+SEM_TIE = ('Tie and oracle: type-directed generated programs (AST for the Lean reference evaluator Sem.denote, text for the real pipeline) run on every check; rows and column names from the `logica.py run` SQLite path are compared as multisets with Sem.denote; ')
+
+add('C02',
+    'Lean 4 theorems: built-in aggregates (Sum, Min, Max, Count as folds over nullable integers) ignore null inputs, yield null on no input, are invariant under every permutation of their input rows, Min is the minimum; negation holds exactly when the negated body has no solution (on the reference semantics Sem). The group-by / correlated sub-query compilation is not yet a theorem (decided by the oracle). ' + SEM_TIE + 'feature mask: predicate-level aggregation incl. multi-body, aggregating expressions correlated with outer variables, nested and sibling combines with clashing local names, negation of conjunctions, nested negation, shape templates (relational division, outer-only aggregated values).',
+    'Trusted: Lean kernel + standard axioms; Sem (the formal reading of the documented semantics); generator/oracle harness; SQLite. Tied ArgMin/ArgMax programs are excluded as the property states. Known finding: List over nothing gives []. Two defects repaired (nested parenthesised conjunction, ArgMin/ArgMax null).',
+    'Lean 4 proof (fold algebra, permutation invariance) + reference-evaluator oracle on SQLite',
+    'DESIGN.md section 5 C02')
+add('C03',
+    'Lean 4 theorems on monotone operators over sets: bounded iteration is increasing, stays inside every set closed under the rules (hence inside the least fixpoint) for every depth, equals the least fixpoint as soon as one more application changes nothing, and is then independent of the depth; the executable Sem.iterate performs exactly n simultaneous applications. The equality of the compiled unfoldings (vertical, flat, iterative plan) with the iteration is decided by the oracle, not yet by theorem. Tie and oracle: recursion shapes (counter, TC as bag and set, Min= shortest paths, 2- and 3-cycles with and without a cutting member, self-loops, multi-body aggregation, depth-sensitive mutual counters) over random graphs and depths 0..30 executed on SQLite (single statement or concertina_lib for iterative plans) against Sem.iterate of depth+1 rounds; bounds (contains depth+1 rounds, inside the fixpoint, equal when converged) for cut covers.',
+    'Trusted: Lean kernel + standard axioms; Sem; harness; SQLite; diamond mode not executable offline. Known finding: @Recursive(P, 0) rejected.',
+    'Lean 4 proof (order-theoretic induction) + reference-iteration oracle on SQLite',
+    'DESIGN.md section 5 C03')
+add('C04',
+    'Lean 4 theorems on rule bodies seen through their predicate names: substitution law (a clone with A replaced by sigma A means the original read through sigma), its lift to rules and to one application of the rules, only the bindings of occurring predicates matter (sharing a clone for equal restricted bindings is sound), the cache key determines the restricted bindings (different bindings never share), untouched bodies are unchanged, chained applications compose. MakeAll ordering and args_of closure are decided by the oracle. Tie and oracle: generated programs with 2-6 functor applications (chains of intermediates, several arguments, functors of made predicates, made predicates as arguments, equal / different bindings, constants, functors reaching made predicates through ordinary rules) on SQLite versus the program with the substitution done by hand at AST level (independent clone-and-rename) and versus Sem.denote of that program.',
+    'Trusted: Lean kernel + standard axioms; hand substitution of the harness; Sem; SQLite.',
+    'Lean 4 proof (structural induction on bodies) + hand-substitution oracle on SQLite',
+    'DESIGN.md section 5 C04')
+add('C07',
+    'Lean 4 theorems on the reference semantics: permuting the rules / facts of a program permutes the rows of every non-aggregating predicate (same multiset; fails for one order iff for the other); Sum, Min, Max do not depend on row arrival order (ArgMin: Udf.argmin_perm). Conjunct / disjunct permutation and renaming are decided by the metamorphic oracle. Tie and oracle: every predicate of generated programs (full feature mask + shape templates) returns the same multiset on SQLite for 7 variants: rule/fact permutation, conjunct/disjunct permutation, variable renaming (SQL-keyword pool, tricky pool), alpha-renaming of combine-local variables, predicate renaming (keyword pool, tricky pool).',
+    'Trusted: Lean kernel + standard axioms; Sem; metamorphic harness; SQLite. Known findings: SQL-keyword predicate names, identifier case collisions, denotation-keyword variable names.',
+    'Lean 4 proof (permutation lemmas over the evaluator) + metamorphic oracle on SQLite',
+    'DESIGN.md section 5 C07')
+add('C08',
+    'Lean 4 theorems on the script/store machine (predicates in dependency order, queries as functions of the relations read, grounded predicates read from their table when it exists): every plan (any choice of grounded predicates and creation order, from any faithful database) returns the same rows as the fully inlined plan, namely the denotation; OkInjection decision logic. WITH vs inline is the same semantic function; that the SQL text really differs is measured. Tie and oracle: generated programs (full mask, templates incl. injectible functions applied to themselves) under 6 annotation assignments of NoInject/With/NoWith/Ground each, every predicate compared with the unannotated plan and with Sem.denote (injectible calls hand-inlined).',
+    'Trusted: Lean kernel + standard axioms; the abstraction of queries as functions (WF: reads only earlier predicates, checked on every generated program by construction); Sem; SQLite. Records holding lists across a table boundary are excluded (JSON subtype).',
+    'Lean 4 proof (store-machine invariant) + plan-equivalence oracle on SQLite',
+    'DESIGN.md section 5 C08')
+add('C12',
+    'Lean 4 theorems on the model of the file-prefix construction: the prefix given to a newly parsed file differs from every prefix in use, so an accepted import sequence gives pairwise different prefixes (same-named private predicates of different files never collide); the pinned loop rejected a shared base name (proved counterexample). Equality with the flattened program is decided by the oracle. Tie and oracle: import graphs written to a scratch directory (chains, diamonds, shared base names, deeper paths, aliases, two import roots, modules applying a predicate to its own result) under both parsers versus the program flattened at AST level and Sem.denote; cycle / undefined / unused / redefinition variants must raise ParsingException in both parsers.',
+    'Trusted: Lean kernel + standard axioms; flattening by the harness; file system; both parsers built from the current source. One defect repaired (shared base names).',
+    'Lean 4 proof (freshness invariant of the prefix loop) + flattening oracle under both parsers',
+    'DESIGN.md section 5 C12')
+add('C13',
+    'Lean 4 theorems on the model of the process state and of set-order use: what a parse observes of the module state is independent of every history of earlier parses; the iteration closure is a function of the declared member list (no set enumeration enters); both pinned-commit counterexamples (sticky experimental-syntax flag, hash-order dependent closure) are proved. That CPython has no other hash- or history-dependent input is runtime behaviour the model cannot exhibit: it is decided by exploration. Tie and oracle: integration tests, generated programs, functor programs, every recursion shape incl. iterative plans and diamond mode, type-checked dialects compiled in fresh subprocesses under 5 hash seeds and under 3 histories (reversed, after an incantation program, after failing compiles and twice; re-use of the parsed rules object): SQL, export map, edges and iterations byte-identical after masking the stop-file time stamp.',
+    'Trusted: Lean kernel + standard axioms; partial: runtime (hash seeds, other module state) covered by exploration only. Two defects repaired (sticky flag, set iteration).',
+    'Lean 4 proof over the modelled state (partial: runtime by seed x history exploration)',
+    'DESIGN.md section 5 C13')
+add('C17',
+    'Lean 4 theorems on the script/store machine: from a faithful database (e.g. a fresh file) a script leaves every created table equal to the denotation of its predicate, touches no other table and returns the denotation of the requested predicate; re-running returns the same rows and the same tables; any history of runs keeps the database faithful; a requested predicate that is not among the created tables is not written. Tie and oracle: generated programs with 1-3 grounded predicates (incl. flags inside grounded predicates and shared WITH helper chains) run in histories through the logica.py SQLite path against one database file; after every step the returned rows, the tables the run had to produce, repeated runs and the no-write rule (sentinel) are checked against Sem.denote.',
+    'Trusted: Lean kernel + standard axioms; queries as functions (WF); SQLite DDL / ATTACH / persistence; the emitted script structure (which tables are created, in which order) is observed, not modelled.',
+    'Lean 4 proof (store-machine invariant over histories) + run-history oracle on a persistent SQLite file',
+    'DESIGN.md section 5 C17')
+add('C19',
+    'Lean 4 theorems (decision logic): an annotation of a missing predicate is always reported, wherever it stands among other annotations, and the report names a missing annotated predicate; programs whose annotated predicates exist pass; two rules of one predicate disagreeing on distinct are reported in every position. Range restriction, base cases, functor arguments and balance are decided by the oracle. Oracle (model-free): 11 corruption operators applied to generated valid programs (unbound head / comparison / negation / in-container / assignment variables, aggregation without distinct, inconsistent distinct, recursion without base case, functor on a non-dependency, annotation of a missing predicate after a valid one, unbalanced brackets and quotes): the outcome must be one of the four diagnostic exceptions naming the offender; SQL or any other exception is a violation.',
+    'Trusted: Lean kernel + standard axioms; the corruption catalogue; classification of exceptions by the harness.',
+    'Lean 4 proof (decision logic) + corruption-catalogue oracle',
+    'DESIGN.md section 5 C19')
+
+ALL = ['C%02d'
+ % i for i in range(1, 21)]
 
 def main():
   checks = []
